@@ -70,6 +70,8 @@ def signature(st, d):
             parts += where_tbl
         else:
             parts += sorted(feat & {"in_s1", "recreate", "default"})
+            if k == "create_index" and "dropped_indexed" in hx:
+                parts.append("after=dropped_indexed")     # an indexed column was dropped from this table before
     elif kind == "panic":
         parts += [k] + sorted(feat - {"has_rows"})
     else:
@@ -87,9 +89,12 @@ def signature(st, d):
             keep = cls & {"indexed"} if kind in ("index_list", "lookup") else cls
             parts.append("col=" + ("+".join(sorted(keep)) or "plain"))
         elif k == "create_index":
-            parts += sorted(feat & {"data_violates", "name_taken", "recreate"})
-            if "tomb" in feat and kind in ("rows", "count", "lookup"):
-                parts.append("table_had_deleted_rows")
+            if "name_taken" in feat:
+                parts.append("name_taken")                 # the refused statement is the story, whatever else holds
+            else:
+                parts += sorted(feat & {"data_violates", "recreate"})
+                if "tomb" in feat and kind in ("rows", "count", "lookup"):
+                    parts.append("table_had_deleted_rows")
             if st.get("why") not in ("-", None):
                 parts.append("why=" + st["why"])
         elif k == "alter_add":
